@@ -144,7 +144,8 @@ func runOne(funcs []fnRec, f *fnRec, required rt.ComplianceFlags, tp tuple, sp i
 	if err != nil {
 		panic(fmt.Sprintf("c08 harness: cannot resolve %s: %v", f.name, err))
 	}
-	bargs := spellArgs(mc, fv, tp, sp)
+	e := refExpect(f.declared, required)
+	bargs := spellArgs(mc, fv, tp, sp, e.noOutside && !e.mustRefuse)
 
 	// set-up that may itself touch the sentinel: producer calls, snippets
 	s0 := sent.pristine
@@ -180,13 +181,24 @@ func runOne(funcs []fnRec, f *fnRec, required rt.ComplianceFlags, tp tuple, sp i
 			}
 		}
 	}
+	for _, fu := range mc.follow {
+		for _, v := range fu.vals {
+			if o.secretIn == "" && scanSecret(v, 0, seen) {
+				if fu.from == 0 {
+					o.secretIn = `io.read("a") after the call`
+				} else {
+					o.secretIn = fmt.Sprintf("calling/reading result #%d", fu.from)
+				}
+			}
+		}
+	}
 	return o
 }
 
 // spellArgs materialises the tuple and prepares the spelling: for the
 // metamethod spellings the subject is the first argument when it can carry a
 // metatable of its own (string, table), else a proxy table.
-func spellArgs(mc *machine, fv rt.Value, tp tuple, sp int) []rt.Value {
+func spellArgs(mc *machine, fv rt.Value, tp tuple, sp int, probe bool) []rt.Value {
 	env := &argEnv{mc: mc}
 	args := env.values(tp)
 	r := mc.r
@@ -216,7 +228,7 @@ func spellArgs(mc *machine, fv rt.Value, tp tuple, sp int) []rt.Value {
 			rest = rest[:1]
 		}
 	}
-	return append([]rt.Value{rt.IntValue(int64(sp)), fv, tgt, env.tbl}, rest...)
+	return append([]rt.Value{rt.IntValue(int64(sp)), rt.BoolValue(probe), fv, tgt, env.tbl}, rest...)
 }
 
 // judge applies the reference expectation to one observation.
@@ -233,6 +245,9 @@ func judge(e expect, o *runObs) (clauses []string) {
 			add("refusal:context-not-live")
 		case o.ok:
 			add("refusal:no-error")
+		}
+		if o.secretIn != "" {
+			add("refusal:effect-secret-read")
 		}
 		if o.cb > 0 {
 			add("refusal:effect-callback-ran")
@@ -301,7 +316,7 @@ func main() {
 			o := fam.Run(i)
 			for _, v := range o.Viols {
 				nv++
-				if nv <= 40 {
+				if nv <= 1000000 {
 					fmt.Println(v.Key)
 				}
 			}
@@ -370,12 +385,25 @@ func families(tier string) []*core.Family {
 		}
 	}
 
+	// index layout: first the block of the quick tuples (all functions), then
+	// the block of the additional thorough tuples; inside a block
+	// function-major, then flags, tuple, spelling
+	nQ := uint64(len(quickTuples))
+	if nQ > nT {
+		nQ = nT
+	}
+	blockA := nF * 16 * nQ * nS
 	decode := func(i uint64) caseID {
 		var c caseID
+		n, off := nQ, uint64(0)
+		if i >= blockA {
+			i -= blockA
+			n, off = nT-nQ, nQ
+		}
 		c.sp = int(i % nS)
 		i /= nS
-		c.tp = int(i % nT)
-		i /= nT
+		c.tp = int(i%n + off)
+		i /= n
 		c.required = rt.ComplianceFlags(i % 16)
 		c.fn = int(i / 16)
 		return c
